@@ -438,7 +438,7 @@ class ClassGen:
                 access = rng.choice(["public", "protected", "private"])
                 outer_lines.append(ind + access + ":")
             elif r < 0.30:
-                form = rng.choice(["plain", "static", "mutable", "bits", "init", "array", "multi", "ptr"])
+                form = rng.choice(["plain", "static", "mutable", "bits", "bits_init", "bits_multi", "init", "array", "multi", "ptr"])
                 if key == "union" and form in ("static", "mutable"):
                     form = "plain"
                 if form == "plain":
@@ -449,6 +449,14 @@ class ClassGen:
                     outer_lines.append(ind + "mutable int f%d;" % k); exp["fields"].append(("f%d" % k, access, {"mutable": True}))
                 elif form == "bits":
                     outer_lines.append(ind + "int f%d : 3;" % k); exp["fields"].append(("f%d" % k, access, {"bits": 3}))
+                elif form == "bits_init":
+                    w = rng.choice([1, 3, 12])
+                    txt, val = rng.choice([(" = 1", ["1"]), (" {2}", ["{", "2", "}"]), (" = (a | b)", ["(", "a", "|", "b", ")"])])
+                    outer_lines.append(ind + "unsigned f%d : %d%s;" % (k, w, txt)); exp["fields"].append(("f%d" % k, access, {"bits": w, "value": val}))
+                elif form == "bits_multi":
+                    outer_lines.append(ind + "int f%d : 6 = 1, : 2, g%d, h%d : 4;" % (k, k, k))
+                    exp["fields"].append(("f%d" % k, access, {"bits": 6, "value": ["1"]})); exp["fields"].append((None, access, {"bits": 2}))
+                    exp["fields"].append(("g%d" % k, access, {})); exp["fields"].append(("h%d" % k, access, {"bits": 4}))
                 elif form == "init":
                     outer_lines.append(ind + "int f%d = 7;" % k); exp["fields"].append(("f%d" % k, access, {"value": ["7"]}))
                 elif form == "array":
@@ -504,7 +512,10 @@ class ClassGen:
         if form == "ctor":
             pre = rng.choice(["", "explicit ", "constexpr ", "inline "])
             suf, q = rng.choice([("", {}), (" = default", {"default": True}), (" = delete", {"deleted": True}), (" {}", {"has_body": True}),
-                                 (" : m(1) {}", {"has_body": True}), (" noexcept", {"noexcept": []})])
+                                 (" : m(1) {}", {"has_body": True}), (" noexcept", {"noexcept": []}),
+                                 (" : m(1), n{2}, B<int>(a) {}", {"has_body": True}), (" : Ts(ts)... {}", {"has_body": True}),
+                                 (" : count(sizeof...(Ts)), Ts(ts)... {}", {"has_body": True}), (" : Ts{ts}..., m(0) { init(); }", {"has_body": True}),
+                                 (" noexcept : m{1} {}", {"has_body": True, "noexcept": []})])
             args = rng.choice(["", "int a", "const %s& o" % cname, "%s&& o" % cname])
             lines.append(ind + "%s%s(%s)%s;" % (pre, cname, args, suf))
             attrs = dict(q, constructor=True)
